@@ -188,3 +188,8 @@ func VerifH_C15_FastHTTPClientAddrHeader() {
 		verifrt.Assert(c.addr == fm.want, "every charge goes to the client named in the header (first hop), never to the proxy")
 	}
 }
+
+// VerifH_C20_FastHTTPBodyOwnership: the fasthttp listener writes the response AFTER the handler has returned: whatever
+// the handler leaves in the response must not be memory it has already given back to the pool (the stub of SetBodyRaw
+// keeps the slice by reference and the harness reads it after other requests have used the pool — ownership ghosts).
+func VerifH_C20_FastHTTPBodyOwnership() { VerifH_C03_FastHTTP() }
